@@ -75,6 +75,28 @@ def check_retry(rep, rule, fn, blk, idx, call, site, need_remaining=False):
     return ok
 
 
+def facts_before(fn, blk, idx):
+    """The guard facts that hold on *every* path from the function's entry to statement idx of blk (the meet of the states reaching it).
+    A scenario that must show that something does not happen (no retry) starts from them: `again = FALSE; r = call ();` is only
+    known not to loop when the flag's reset is part of the scenario."""
+    seen = []
+
+    def on_stmt(st, b, i, stmt):
+        if b is blk and i == idx:
+            seen.append(st)
+        return [guards.transfer(st, stmt)]
+    try:
+        Flow(fn, [guards.EMPTY], on_stmt, lambda st, b, to, on: guards.edge_assume(st, b, on), max_states=6000).run()
+    except Exception:
+        return []
+    if not seen:
+        return []
+    common = set(seen[0])
+    for st in seen[1:]:
+        common &= set(st)
+    return [(k, op, v) for (k, op, v) in common if op in ("==", "!=") and isinstance(v, int) and "(" not in k]
+
+
 def run_scenario(fn, blk, idx, call, failval, errno_val, extra_facts=(), watch=(), need_remaining=False,
                  excuse_other_calls=True, mark=None):
     """Flow from the statement containing `call` in the scenario
